@@ -44,6 +44,7 @@ class Ctx:
         self.fork_sites = getattr(stats, "fork_sites", None)
         self.deadline = getattr(stats, "deadline", None)
         self.side_obligations = []     # (name, goal, pc snapshot): loop-init / loop-step / loop-variant
+        self._model = None             # a model of the current path condition, when one is at hand (saves feasibility queries)
 
     # -- naming ------------------------------------------------------------------------------
     def uniq(self, name):
@@ -60,6 +61,8 @@ class Ctx:
             raise PathAbort()
         self.pc.append(c.t)
         self.solver.add(c.t)
+        if self._model is not None and not z3.is_true(self._model.eval(c.t, model_completion=True)):
+            self._model = None
 
     def _check(self, extra):
         import time
@@ -67,6 +70,10 @@ class Ctx:
         r = self.solver.check(extra)
         self.stats.feas_queries += 1
         self.stats.solver_s += time.time() - t0
+        import os
+        if os.environ.get("PYVC_DUMP_FEAS") and time.time() - t0 > float(os.environ.get("PYVC_DUMP_MIN", "0.5")):
+            with open(os.path.join(os.environ["PYVC_DUMP_FEAS"], "f%d_%s_%.2f.smt2" % (self.stats.feas_queries, r, time.time() - t0)), "w") as f:
+                f.write(self.solver.to_smt2().replace("(check-sat)", "") + "(assert %s)\n(check-sat)\n" % extra.sexpr())
         return r
 
     def branch(self, cond):
@@ -80,10 +87,27 @@ class Ctx:
             d = self.decisions[self.pos]
             self.pos += 1
         else:
-            rt = self._check(cond)
-            rf = self._check(z3.Not(cond))
-            can_t = rt != z3.unsat
-            can_f = rf != z3.unsat
+            # the model of the path condition kept from an earlier query witnesses one side: only the other is asked
+            val = None
+            if self._model is not None:
+                v = self._model.eval(cond, model_completion=True)
+                val = True if z3.is_true(v) else (False if z3.is_false(v) else None)
+            mt = mf = None
+            if val is True:
+                can_t, mt = True, self._model
+            else:
+                rt = self._check(cond)
+                can_t = rt != z3.unsat
+                if rt == z3.sat:
+                    mt = self.solver.model()
+            if val is False:
+                can_f, mf = True, self._model
+            else:
+                rf = self._check(z3.Not(cond))
+                can_f = rf != z3.unsat
+                if rf == z3.sat:
+                    mf = self.solver.model()
+            self._model = mt if can_t else mf
             if can_t and can_f:
                 self.new_alternatives.append(self.decisions[:self.pos] + [False])
                 d = True
